@@ -25,7 +25,10 @@ def dtype_to_tensor_type(dtype_like: npt.DTypeLike) -> int:
     if dtype_like is None:  # numpy would default to float64
         raise TypeError(err_msg)
     # normalize in the case of aliases like ``long`` which are missing in the lookup
-    dtype = np.dtype(np.dtype(dtype_like).type)
+    try:
+        dtype = np.dtype(np.dtype(dtype_like).type)
+    except ValueError as e:  # e.g. UnicodeEncodeError for a string with a lone surrogate
+        raise TypeError(err_msg) from e
     if dtype == np.dtype(object):
         raise TypeError(
             "`np.dtype('object')` is not supported as a tensor element type. "
@@ -35,7 +38,7 @@ def dtype_to_tensor_type(dtype_like: npt.DTypeLike) -> int:
         return onnx.TensorProto.STRING
     try:
         return onnx.helper.np_dtype_to_tensor_dtype(dtype)
-    except KeyError:
+    except (KeyError, ValueError):  # onnx >= 1.17 raises ValueError for unmapped dtypes
         raise TypeError(err_msg)
 
 
